@@ -87,6 +87,9 @@ static bool CheckParse(const json& c, const json& rend, bool math, int spacing, 
     bool ok = fr.start <= q.start && fr.finish >= q.finish;
     for (auto& o : ranges) if (o.first <= q.start && o.second >= q.finish && (o.second - o.first) < fr.length()) ok = false;
     if (!ok) { r.Violation("C06", "FindMinimalNode", wit, { {"range", { q.start, q.finish }}, {"got", { fr.start, fr.finish }} }); return false; }
+    // innermost also among nodes of equal range (a wrapper over a single child): no child of the answer may contain the range
+    for (int k = 0; k < found->ChildrenCount(); ++k) if ((*found)(static_cast<Index>(k)).pos.Contains(q)) {
+      r.Violation("C06", "FindMinimalNode.not-innermost", wit, { {"range", { q.start, q.finish }}, {"got", { fr.start, fr.finish }} }); return false; }
   }
   return true;
 }
@@ -124,9 +127,10 @@ static void Handle(const json& c, vh::Report& r) {
   const json tree = rstext::Materialise(c["e"]);
   const bool lone = tree["ch"].empty();
   std::string minMath, minAscii, tmp;
-  // ---- parsing: 2 parenthesisations x 2 syntaxes x spacings
+  // ---- parsing: 3 parenthesisations (necessary / every redundant pair / every pair doubled) x 2 syntaxes x spacings
   if (On("C06") || On("C05")) {
-    for (const char* key : { "r0", "r1" }) for (const bool math : { true, false }) for (int sp = 0; sp < 4; ++sp) {
+    for (const char* key : { "r0", "r1", "r2" }) for (const bool math : { true, false }) for (int sp = 0; sp < 4; ++sp) {
+      if (key[1] == '2' && (!c.contains("r2") || c["r2"]["t"] == c["r1"]["t"] || sp > 1)) continue;   // doubled parentheses: only where there are any
       if (sp == 2 && (r.cases % 4) != 0) continue;     // tabs / double spaces on a quarter of the cases
       if (sp == 3 && !math) continue;                  // newlines: MATH only (advances the lexer's line base)
       std::string text;
